@@ -53,12 +53,12 @@ def run_case(ctx, case, ir):
     for sgn in (1., -1.):
         mine = panel_v.interp_kernel(kernels[kname], consts, p, dict(y1=case['y1'], y2=case['y2'], d=sgn * case['offset']),
                                      size, row0, col0)
-        ds[sgn] = pc.rel_diff(raw, mine)
+        ds[sgn] = max(pc.rel_diff(raw, mine), pc.block_rel_diff(raw, mine, size0 // (case['m'] * case['n']), row0) / 10.)
     if min(ds.values()) > 1e-9:
         v_bad = 'translated %s interpreted on this panel differs from Panel.calc_kM(finalize=False) for d=+offset and d=-offset: rel %r' % (kname, ds)
     full = pc.quiet(p.calc_kM, size=size, row0=row0, col0=col0, silent=True, finalize=True).toarray()
     want = panel_v.oracle_matrix(case['model'], p, 'kM', dict(delta=case['offset']), size, row0, col0, y12)
-    d2 = pc.rel_diff(full, want)
+    d2 = max(pc.rel_diff(full, want), pc.block_rel_diff(full, want, size0 // (case['m'] * case['n']), row0))   # every field block on its own scale
     if d2 > 1e-8:
         i, j = np.unravel_index(np.abs(full - want).argmax(), full.shape)
         p_bad = ('calc_kM differs from the Hessian of the kinetic energy of a plate whose mid-plane is at z=+offset '
